@@ -841,4 +841,58 @@ mutual
       else next
 end
 
+/-! ### Runtime side of `child_by_field_id_spec_partial` -/
+
+/-- Does a field chain contain the field? -/
+def hasF (f : Nat) (chain : List (List Nat)) : Bool := chain.any (·.contains f)
+
+/-- What `ts_node_child_by_field_id(self, f)` is meant to return: the first visible child, in order,
+whose field chain (own slot, then the slots of the hidden ancestors below `self`) contains `f`. -/
+def cbfSpec (lang : Lang) (f : Nat) (t : Tree) : Option (Tree × Nat) :=
+  ((enumF lang t []).find? (fun x => hasF f x.2.2)).map (fun x => (x.1, x.2.1))
+
+/-- The entries of one field in a production's field map have strictly increasing child indices (the
+scan of `ts_node_child_by_field_id` consumes them in table order, at most one per child). -/
+def entriesSorted : List FieldEntry → Bool
+  | [] => true
+  | [_] => true
+  | a :: b :: r => decide (a.childIndex < b.childIndex) && entriesSorted (b :: r)
+
+/-- The entries of field `f` in the field map of production `pid` (what the two trimming loops of the C
+function leave when the table is sorted by field id). -/
+def fieldEntries (lang : Lang) (pid f : Nat) : List FieldEntry := (lang.fieldMap pid).toList.filter (·.fieldId == f)
+
+/-- LANGUAGE-level premise, decidable on the dumped tables: for every production and every field the
+entries have strictly increasing child indices. -/
+def fieldMapsSorted (lang : Lang) : Bool :=
+  (List.range lang.productionIdCount).all fun pid => (List.range (lang.fieldCount + 1)).all fun f => entriesSorted (fieldEntries lang pid f)
+
+/-- The entry for structural child `i`, if any. -/
+def entryAt (es : List FieldEntry) (i : Nat) : Option FieldEntry := es.find? (·.childIndex == i)
+
+mutual
+  /-- TREE-level premise of `child_by_field_id_spec_partial` for field `f` (decidable, evaluated for every
+  node and field): the entries of `f` are sorted at every node the search enters; an INHERITED entry never
+  points at a visible (or aliased) child — the C code would search inside it; a hidden child WITHOUT an entry
+  contains no visible node carrying `f` (the table's `inherited` entries are complete: fails below ERROR
+  nodes, which have no field map — finding 8); an extra hidden child contains none either (extras are skipped). -/
+  def cbfOK (lang : Lang) (f : Nat) : Tree → Bool
+    | .mk d kids => entriesSorted (fieldEntries lang d.productionId f) &&
+        cbfOKKids lang f d.productionId (fieldEntries lang d.productionId f) kids 0
+  def cbfOKKids (lang : Lang) (f pid : Nat) (es : List FieldEntry) : List Tree → Nat → Bool
+    | [], _ => true
+    | c :: rest, si =>
+      if c.data.extra then
+        (c.data.visible || (enumF lang c []).all (fun x => !hasF f x.2.2)) && cbfOKKids lang f pid es rest si
+      else
+        (if c.data.visible || lang.aliasAt pid si != 0 then
+           (match entryAt es si with | some m => !m.inherited | none => true)
+         else
+           match entryAt es si with
+           | some m => if m.inherited then cbfOK lang f c
+                       else (match (enumF lang c [[f]]).head? with | some x => hasF f x.2.2 | none => true)
+           | none => (enumF lang c []).all (fun x => !hasF f x.2.2)) &&
+        cbfOKKids lang f pid es rest (si + 1)
+end
+
 end TsVerif.C06
